@@ -444,7 +444,7 @@ func subWriterFail() mon.Sub {
 							c.Fail("writer/sends-after-failure/"+kindName(fu), fmt.Sprintf("%s after a failed destination write sent more bytes", r.Op), det)
 							return
 						}
-						if r.Err == nil && fu.Kind != wops.ReadFrom {
+						if r.Err == nil && fu.Kind != wops.ReadFrom && fu.Kind != wops.ReadFromErr {
 							c.Fail("writer/error-not-sticky/"+kindName(fu), fmt.Sprintf("%s after a failed destination write returned nil", r.Op), det)
 							return
 						}
@@ -464,7 +464,7 @@ func subWriterFail() mon.Sub {
 }
 
 func kindName(o wops.Op) string {
-	return []string{"Write", "ReadFrom", "WriteThrough", "FlushFragment", "Flush", "Grow"}[o.Kind]
+	return []string{"Write", "ReadFrom", "WriteThrough", "FlushFragment", "Flush", "Grow", "ReadFromErr"}[o.Kind]
 }
 
 func main() {
